@@ -87,7 +87,9 @@ func runMysql(r *core.Run) {
 	rd := r.Rand
 	th := r.Thorough()
 	runMyColDef(r)
+	runMyColDefDeep(r)
 	runMyExecute(r)
+	runMyExecuteDeep(r)
 
 	// ---- 1. packet relay: single packets of every small size and around the boundaries ----
 	lens := []int{1, 2, 3, 4, 5, 250, 251, 255, 256, 65535, 65536}
@@ -354,7 +356,7 @@ func runMyColDef(r *core.Run) {
 		payload := myColDef(schema, table, orgTable, name, orgName, charset, length, origType, flags, decimals)
 		seq := rd.Intn(256)
 		r.Begin(fmt.Sprintf("my-coldef-%s-%s", dt, core.Hex(payload)), true, "stream:structured", "my:coldef", "type:"+dt)
-		got := r.Impl(fmt.Sprintf("C12.my.coldef %s %d %s", dt, seq, core.Hex(payload)))
+		got := r.Do(fmt.Sprintf("C12.my.coldef %s %d %s", dt, seq, core.Hex(payload)))
 		sent := myEncodePayload(seq, payload)
 		want := sent
 		if d, ok := declared[dt]; ok && string(name) == "c" {
@@ -395,8 +397,11 @@ func runMyExecute(r *core.Run) {
 				}
 				ts[j] = tr{kind: 'k'}
 			case 1: // fixed-width numeric, kept: must come back with exactly the same bytes
-				t := core.Pick(rd, []byte{1, 2, 3, 8, 4, 5})
+				t := core.Pick(rd, []byte{1, 2, 3, 8, 4, 5, 9, 13})
 				v := rd.Bytes(myFixedWidth(int(t)))
+				if rd.Chance(20) { // extreme values: -1 / minimum / maximum
+					v = core.Pick(rd, [][]byte{bytes.Repeat([]byte{0xff}, len(v)), append(bytes.Repeat([]byte{0}, len(v)-1), 0x80), append(bytes.Repeat([]byte{0xff}, len(v)-1), 0x7f)})
+				}
 				if t == 4 || t == 5 { // finite FLOAT/DOUBLE (exponent field not all ones), incl. values not representable in float32
 					v[len(v)-1] &= 0xbf
 					if rd.Chance(30) {
@@ -404,7 +409,7 @@ func runMyExecute(r *core.Run) {
 					}
 				}
 				vals = append(vals, v)
-				types[j] = [2]byte{t, 0}
+				types[j] = [2]byte{t, byte(rd.Intn(2) * 128)} // signed / unsigned flag
 				ts[j] = tr{kind: 'k'}
 			default: // string-like, possibly transformed
 				vals = append(vals, myRandValue(rd, false))
@@ -435,24 +440,33 @@ func runMyExecute(r *core.Run) {
 		payload := myExecute(uint32(rd.U64()), byte(rd.Intn(2)), types, vals)
 		seq := rd.Intn(256)
 		r.Begin(fmt.Sprintf("my-execute-%s-%s", core.Hex(payload), showTrs(ts)), true, "stream:structured", "my:execute", fmt.Sprintf("params:%d", n))
-		got := r.Impl(fmt.Sprintf("C12.my.execute %d %s %d %s", n, showTrs(ts), seq, core.Hex(payload)))
+		got := r.Do(fmt.Sprintf("C12.my.execute %d %s %d %s", n, showTrs(ts), seq, core.Hex(payload)))
 		if !r.Check(len(got) > 3 && got[:3] == "ok ", class, fmt.Sprintf("COM_STMT_EXECUTE with %d parameters (types %v, values %s) is not rewritten: %s", n, types, showRow(vals), got)) {
 			continue
 		}
 		out := core.UnHex(got[3:])
 		wantPayload := myExecute(uint32(payload[1])|uint32(payload[2])<<8|uint32(payload[3])<<16|uint32(payload[4])<<24, payload[5], wtypes, want)
-		// SetParameters rewrites the unsigned flag of LONG/LONGLONG parameters from the value's sign: ignore flag bytes of those
+		wantOut := myEncodePayload(seq, wantPayload)
+		if bytes.Equal(out, wantOut) {
+			continue
+		}
+		// SetParameters recomputes the unsigned flag of every LONG/LONGLONG parameter from the sign of its value read as a
+		// signed integer: a difference confined to those flag bytes is the known finding my-execute-sign-flag
 		mask := func(b []byte) []byte {
 			c := append([]byte{}, b...)
 			off := 4 + 10 + (n+7)/8 + 1
 			for j := 0; j < n; j++ {
-				if off+2*j+1 < len(c) && (wtypes[j][0] == 3 || wtypes[j][0] == 8) {
+				if off+2*j+1 < len(c) && (wtypes[j][0] == 3 || wtypes[j][0] == 8) && vals[j] != nil {
 					c[off+2*j+1] = 0
 				}
 			}
 			return c
 		}
-		r.Check(bytes.Equal(mask(out), mask(myEncodePayload(seq, wantPayload))), class, fmt.Sprintf("rewritten COM_STMT_EXECUTE is not the well-formed packet with the transformed parameters: types=%v vals=%s tr=%s got=%x want=%x", types, showRow(vals), showTrs(ts), out, myEncodePayload(seq, wantPayload)))
+		if bytes.Equal(mask(out), mask(wantOut)) {
+			r.Check(false, "my-execute-sign-flag", fmt.Sprintf("the unsigned flag of an untouched LONG/LONGLONG parameter was rewritten: types=%v vals=%s got=%x want=%x", types, showRow(vals), out, wantOut))
+			continue
+		}
+		r.Check(false, class, fmt.Sprintf("rewritten COM_STMT_EXECUTE is not the well-formed packet with the transformed parameters: types=%v vals=%s tr=%s got=%x want=%x", types, showRow(vals), showTrs(ts), out, wantOut))
 	}
 }
 
